@@ -273,6 +273,79 @@ def case_of(run, style="rel"):
             "events_tail": run.events[-6:]}
 
 
+# ------------------------------------------------- documented output tree ---
+
+INC_RE = None
+
+
+def tree_inputs(ins):
+    """command-line variants whose documented effect on the tree OutTree.tla states"""
+    tiny = [i for i in ins if i.name == "tiny"][0]
+    return [sr.Input("tiny+name", tiny.files, tiny.main, extra_args=["--schema-name", "renamed_schema"]),
+            sr.Input("tiny+inject", tiny.files, tiny.main, extra_args=["--inject-include", "my/config.hpp"]),
+            # (an option given twice is not documented: each once)
+            sr.Input("tiny+both", tiny.files, tiny.main,
+                     extra_args=["--inject-include", "b/c.hpp", "--schema-name", "n2"])]
+
+
+def observe_tree(ref, S):
+    """names (schema order) and what the run left behind - no expectation is computed here"""
+    import re
+    global INC_RE
+    INC_RE = INC_RE or re.compile(r'^\s*#\s*include\s*"([^"]+)"', re.M)
+    args = ref.inp.extra_args
+    name = S["package"]
+    inject = []
+    for a, b in zip(args, args[1:]):
+        if a == "--schema-name":
+            name = b
+        if a == "--inject-include":
+            inject.append(b)
+    files = sorted(ref.content)
+    # (the output directory itself - "." - is the root the documentation speaks of, not part of the tree)
+    dirs = sorted(set(op["path"] for op in ref.ops if op["call"] == "mkdir") - {"."})
+    top = INC_RE.findall(ref.content.get("%s/%s.hpp" % (name, name), b"").decode("utf-8", "replace"))
+    schh = INC_RE.findall(ref.content.get("%s/schema/schema.hpp" % name, b"").decode("utf-8", "replace"))
+    return {"id": ref.inp.name, "name": name, "types": [t["name"] for t in S["types"]], "msgs": [m["name"] for m in S["messages"]],
+            "inject": inject, "files": set(files), "dirs": set(dirs), "top": top, "sch": schh}
+
+
+def tla_set(xs):
+    return "{" + ", ".join(sch.tla_str(x) for x in sorted(xs)) + "}"
+
+
+def check_tree(v, wd, observations):
+    body = "RunsDef == <<%s>>\n" % ",\n ".join(
+        "[id |-> %s, name |-> %s, types |-> %s, msgs |-> %s, inject |-> %s, files |-> %s, dirs |-> %s, top |-> %s, sch |-> %s]" % (
+            sch.tla_str(o["id"]), sch.tla_str(o["name"]), sch.tla(o["types"]), sch.tla(o["msgs"]), sch.tla(o["inject"]),
+            tla_set(o["files"]), tla_set(o["dirs"]), sch.tla(o["top"]), sch.tla(o["sch"])) for o in observations)
+    d = os.path.join(wd, "mc-outtree")
+    vlib.mc(d, "MC_OutTree", "OutTree", body,
+            "CONSTANT Runs <- RunsDef\nSPECIFICATION Spec\nCONSTRAINT EmitTree\n")
+    r = vlib.tlc("MC_OutTree", cwd=d, workers=1, timeout=300, xmx="1g", deadlock=False)
+    if not r.ok:
+        raise vlib.InfraError("OutTree.tla did not run: %s" % r.raw[-800:])
+    recs = [x for x in r.records if x.get("kind") == "outtree"]
+    if len(recs) != len(observations):
+        raise vlib.InfraError("OutTree.tla judged %d of %d runs" % (len(recs), len(observations)))
+    for x in recs:
+        for what, key, text in (("missing", "tree/missing-file", "a file the documentation promises was not generated"),
+                                ("extra", "tree/undocumented-file", "a file outside the documented tree was generated"),
+                                ("dirs_missing", "tree/missing-dir", "a documented directory was not created"),
+                                ("dirs_extra", "tree/undocumented-dir", "a directory outside the documented tree was created"),
+                                ("top_missing", "tree/top-header-incomplete", "<name>/<name>.hpp does not include it ('contains everything')"),
+                                ("top_extra", "tree/top-header-extra", "<name>/<name>.hpp includes something that is no part of the schema")):
+            if x[what]:
+                v.violation("%s/%s" % (key, x["id"]), "sbeppc exit 0 for %s, but %s: %s (OutTree.tla)" % (x["id"], text, sorted(x[what])[:8]),
+                            {"schema": x["id"], what: sorted(x[what])})
+        if not x["inject_ok"]:
+            v.violation("tree/inject-include/%s" % x["id"], "--inject-include PATH is not the first #include of schema/schema.hpp (OutTree.tla InjectedComesFirst)",
+                        {"schema": x["id"]})
+    v.part("documented_output_tree", runs=len(recs), files_expected=sum(x["expected"] for x in recs),
+           variants=[o["id"] for o in observations])
+    return len(recs)
+
+
 # -------------------------------------------------------------------- run ---
 
 def run(v, tier, seed):
@@ -295,6 +368,18 @@ def run(v, tier, seed):
     for inp in ins:
         refs[inp.name] = sr.reference(sb, inp, rdir)
     hooked = any(e["ev"] == "phase" for e in refs[ins[0].name].run.events)
+
+    # ---- 2b. what "every generated file" is: the documented tree (OutTree.tla) --
+    import xmlimport
+    observations = []
+    for inp in ins + tree_inputs(ins):
+        ind = vlib.fresh_dir(os.path.join(wd, "tree-in", inp.name))
+        for fn, text in inp.files.items():
+            vlib.write(os.path.join(ind, fn), text)
+        S = xmlimport.load(os.path.join(ind, inp.main))
+        ref = refs[inp.name] if inp.name in refs else sr.reference(sb, inp, rdir)
+        observations.append(observe_tree(ref, S))
+    n_tree = check_tree(v, wd, observations)
     all_runs = {}
     n_exec = len(ins)
 
